@@ -16,20 +16,30 @@ type entry struct {
 	counts []int // counts[n] = number of stored hashes for the first n records
 }
 
+// Key identifies a reference log: records 0..P-1 come from seed A, the rest from seed B.
+// A plain seeded log has A == B.
+type Key struct {
+	A, B, P int64
+}
+
 var (
 	mu      sync.Mutex
-	entries = map[int64]*entry{}
+	entries = map[Key]*entry{}
 )
 
-func get(seed, n int64) *entry {
-	e := entries[seed]
+func get(k Key, n int64) *entry {
+	e := entries[k]
 	if e == nil {
 		e = &entry{tree: merkleref.NewTree(), counts: []int{0}}
-		entries[seed] = e
+		entries[k] = e
 	}
 	for e.tree.Size() < n {
 		i := e.tree.Size()
-		e.tree.Append(merkleref.RecordData(seed, i))
+		if i < k.P {
+			e.tree.Append(merkleref.RecordData(k.A, i))
+		} else {
+			e.tree.Append(merkleref.RecordData(k.B, i))
+		}
 		for _, c := range merkleref.LeafCoords(i) {
 			e.store = append(e.store, e.tree.At(c))
 		}
@@ -39,18 +49,23 @@ func get(seed, n int64) *entry {
 }
 
 // Tree returns the (shared, memoised) reference tree for seed, with at least n records.
-// Not safe for concurrent mutation: property tests run one case at a time.
-func Tree(seed, n int64) *merkleref.Tree {
+func Tree(seed, n int64) *merkleref.Tree { return ForkedTree(Key{seed, seed, 0}, n) }
+
+// ForkedTree returns the reference tree for a forked log.
+func ForkedTree(k Key, n int64) *merkleref.Tree {
 	mu.Lock()
 	defer mu.Unlock()
-	return get(seed, n).tree
+	return get(k, n).tree
 }
 
 // Store returns the reference stored hashes (layout order) for the first n records of seed's tree.
-func Store(seed, n int64) []merkleref.Hash {
+func Store(seed, n int64) []merkleref.Hash { return ForkedStore(Key{seed, seed, 0}, n) }
+
+// ForkedStore is Store for a forked log.
+func ForkedStore(k Key, n int64) []merkleref.Hash {
 	mu.Lock()
 	defer mu.Unlock()
-	e := get(seed, n)
+	e := get(k, n)
 	return e.store[:e.counts[n]:e.counts[n]]
 }
 
